@@ -186,31 +186,54 @@ Fixpoint height (v : val) : N :=
 Definition is_null_event (e : event) : bool :=
   match e with ENull | EBigInt None | EBigFloat None | EBigDecimal None => true | _ => false end.
 
-(* values delivered in one event: scalars, and arrays that pass the validator's full-array checks *)
-Definition leaf_ok (cfg : rcfg) (e : event) : bool :=
+(* positions of a value: plain (top level, list item, map value, record field, edge destination aside), edge
+   source (no null, array type must be non-null), edge description and first child of a node (array type checked
+   against the any-mask), edge destination (no null) *)
+Inductive vpos := PPlain | PSrc | PDesc | PDst.
+Definition null_ok (p : vpos) : bool := match p with PSrc | PDst => false | _ => true end.
+Definition arr_guard (p : vpos) (t : arrty) : bool :=
+  match p with
+  | PSrc => assert_array_type t Allow_NonNull
+  | PDesc => assert_array_type t Allow_Any
+  | _ => true
+  end.
+
+(* values delivered in one event: scalars, and arrays that pass the validator's full-array checks at that position *)
+Definition leaf_ok (cfg : rcfg) (p : vpos) (e : event) : bool :=
   match e with
   | ENull | EBool _ | ETrue | EFalse | EPosInt _ | ENegInt _ | EInt _ | EBigInt _
   | EFloat _ | EBigFloat _ | EDecimal _ | EBigDecimal _ | ENan _ | EUid _ | ETime _ => true
-  | EArray t n d =>
-      array_api_ok t && validate_full_array_any cfg t n d && assert_array_type t Allow_NonNull && assert_array_type t Allow_Any
-  | EStringArray t d =>
-      array_api_ok t && validate_full_array_stringlike cfg t d && assert_array_type t Allow_NonNull && assert_array_type t Allow_Any
+  | EArray t n d => array_api_ok t && validate_full_array_any cfg t n d && arr_guard p t
+  | EStringArray t d => array_api_ok t && validate_full_array_stringlike cfg t d && arr_guard p t
+  (* media and custom arrays delivered in one event: a valid media type / custom type code *)
+  | EMedia mt d => utf8_valid mt && media_type_valid mt && validate_full_array_any cfg AT_Media (blen d) d && arr_guard p AT_Media
+  | ECustomBin ct d => custom_type_ok ct && validate_full_array_any cfg AT_CustomBinary (blen d) d && arr_guard p AT_CustomBinary
+  | ECustomText ct d => custom_type_ok ct && validate_full_array_stringlike cfg AT_CustomText d && arr_guard p AT_CustomText
   | _ => false
   end.
+Definition leaf_wf (cfg : rcfg) (p : vpos) (e : event) : bool :=
+  leaf_ok cfg p e && (null_ok p || negb (is_null_event e)).
 
-(* map keys and record-type field names: keyable scalars and whole strings / resource ids *)
+(* map keys and record-type field names: keyable scalars and whole strings / resource ids (as string-like or
+   as plain array events) *)
 Definition key_of (e : event) : option rawkey :=
   match e with
   | EBool b => Some (RkBool b) | ETrue => Some (RkBool true) | EFalse => Some (RkBool false)
   | EPosInt n => Some (RkUint64 n) | ENegInt n => Some (RkNegint n) | EInt z => Some (RkInt64 z)
   | EBigInt (Some z) => Some (RkBigInt z)
   | EUid b => Some (RkBytes b) | ETime s => Some (RkTime s)
-  | EStringArray t d => if t =? AT_String then Some (RkString d) else if t =? AT_ResourceID then Some (RkRid d) else None
+  | EStringArray t d | EArray t _ d =>
+      if t =? AT_String then Some (RkString d) else if t =? AT_ResourceID then Some (RkRid d) else None
   | _ => None
   end.
 Definition key_ok (cfg : rcfg) (e : event) : bool :=
   match key_of e with
-  | Some _ => match e with EStringArray t d => validate_full_array_stringlike cfg t d | _ => true end
+  | Some _ =>
+      match e with
+      | EStringArray t d => validate_full_array_stringlike cfg t d
+      | EArray t n d => validate_full_array_any cfg t n d
+      | _ => true
+      end
   | None => false
   end.
 Definition nkey_of (e : event) : option nkey := option_map norm_key (key_of e).
@@ -226,27 +249,29 @@ Fixpoint nkeys_distinct (ks : list (option nkey)) : bool :=
 Definition markable (v : val) : bool :=
   match v with
   | VLeaf (EArray t _ _) | VLeaf (EStringArray t _) => assert_array_type t Allow_Markable
+  | VLeaf (EMedia _ _) => assert_array_type AT_Media Allow_Markable
+  | VLeaf (ECustomBin _ _) => assert_array_type AT_CustomBinary Allow_Markable
+  | VLeaf (ECustomText _ _) => assert_array_type AT_CustomText Allow_Markable
   | VT _ _ | VMarked _ _ _ | VRef _ => false
   | _ => true
   end.
 
-(* [wf_val cfg rts nonnull v]: [rts] = the declared record types (name -> arity); [nonnull] = the
-   position does not admit null (edge source and destination) *)
-Fixpoint wf_val (cfg : rcfg) (rts : list (bytes * N)) (nonnull : bool) (v : val) : bool :=
+(* [wf_val cfg rts p v]: [rts] = the declared record types (name -> arity); [p] = the position of the value *)
+Fixpoint wf_val (cfg : rcfg) (rts : list (bytes * N)) (p : vpos) (v : val) : bool :=
   match v with
-  | VLeaf e => leaf_ok cfg e && negb (nonnull && is_null_event e)
-  | VT _ v => wf_val cfg rts nonnull v
-  | VList items _ => forallb (wf_val cfg rts false) items
+  | VLeaf e => leaf_wf cfg p e
+  | VT _ v => wf_val cfg rts p v
+  | VList items _ => forallb (wf_val cfg rts PPlain) items
   | VMap entries _ =>
-      forallb (fun en => let '(_, k, v) := en in key_ok cfg k && wf_val cfg rts false v) entries &&
+      forallb (fun en => let '(_, k, v) := en in key_ok cfg k && wf_val cfg rts PPlain v) entries &&
       nkeys_distinct (map (fun en => let '(_, k, _) := en in nkey_of k) entries)
-  | VNode v items _ => wf_val cfg rts false v && forallb (wf_val cfg rts false) items
-  | VEdge s d t _ => wf_val cfg rts true s && wf_val cfg rts false d && wf_val cfg rts true t
+  | VNode v items _ => wf_val cfg rts PDesc v && forallb (wf_val cfg rts PPlain) items
+  | VEdge s d t _ => wf_val cfg rts PSrc s && wf_val cfg rts PDesc d && wf_val cfg rts PDst t
   | VRecord id fields _ =>
       validate_identifier cfg id &&
       match alookup id rts with Some n => N.of_nat (length fields) =? n | None => false end &&
-      forallb (wf_val cfg rts false) fields
-  | VMarked id _ v => validate_identifier cfg id && markable v && wf_val cfg rts nonnull v
+      forallb (wf_val cfg rts PPlain) fields
+  | VMarked id _ v => validate_identifier cfg id && markable v && wf_val cfg rts p v
   | VRef id => validate_identifier cfg id
   end.
 
@@ -299,13 +324,14 @@ Fixpoint top_ok (v : val) : bool :=
 (* documents: record types (and trivia) first, then the one top-level value *)
 Inductive top_item :=
 | TopTrivia (t : trivia)
-| TopRecType (id : bytes) (fields : list event) (close : list trivia).
+| TopRecType (id : bytes) (fields : list (list trivia * event)) (close : list trivia).   (* trivia, field name *)
 Record doc := { d_pre : list top_item; d_top : val }.
 
 Definition flatten_top (it : top_item) : list event :=
   match it with
   | TopTrivia t => [trivia_event t]
-  | TopRecType id fields close => ERecordType id :: fields ++ map trivia_event close ++ [EEnd]
+  | TopRecType id fields close =>
+      ERecordType id :: flat_map (fun f => map trivia_event (fst f) ++ [snd f]) fields ++ map trivia_event close ++ [EEnd]
   end.
 Definition flatten_doc (cfg : rcfg) (d : doc) : list event :=
   EBeginDoc :: EVersion (expected_version cfg) :: flat_map flatten_top (d_pre d) ++ flatten (d_top d) ++ [EEndDoc].
@@ -316,7 +342,8 @@ Fixpoint declare (cfg : rcfg) (rts : list (bytes * N)) (pre : list top_item) : o
   | [] => Some rts
   | TopTrivia _ :: r => declare cfg rts r
   | TopRecType id fields _ :: r =>
-      if validate_identifier cfg id && forallb (key_ok cfg) fields && nkeys_distinct (map nkey_of fields) &&
+      if validate_identifier cfg id && forallb (fun f => key_ok cfg (snd f)) fields &&
+         nkeys_distinct (map (fun f => nkey_of (snd f)) fields) &&
          match alookup id rts with None => true | Some _ => false end
       then declare cfg (aset id (N.of_nat (length fields)) rts) r
       else None
@@ -324,7 +351,7 @@ Fixpoint declare (cfg : rcfg) (rts : list (bytes * N)) (pre : list top_item) : o
 Definition wf_doc (cfg : rcfg) (d : doc) : bool :=
   match declare cfg [] (d_pre d) with
   | Some rts =>
-      wf_val cfg rts false (d_top d) && top_ok (d_top d) &&
+      wf_val cfg rts PPlain (d_top d) && top_ok (d_top d) &&
       match reg_val (d_top d) ([], []) with Some (_, []) => true | _ => false end   (* marker ids distinct, every reference resolved *)
   | None => false
   end.
@@ -346,11 +373,30 @@ Definition chunk_state (st : arrty * N) (es : list event) : arrty * N := fold_le
 Definition within_limits_full (cfg : rcfg) (es : list event) : Prop :=
   within_limits cfg es /\ length_ok cfg (chunked_array_usage es) = true.
 
-(* event lists inside the fragment of [doc] *)
-Definition in_fragment (es : list event) : bool :=
-  forallb (fun e => match e with
-                    | EMarker _ | ERefLocal _ | EArrayBegin _ | EMediaBegin _ | ECustomBegin _ _ | EArrayChunk _ _ | EArrayData _
-                    | EMedia _ _ | ECustomBin _ _ | ECustomText _ _ => false
-                    | EArray t _ _ => negb ((t =? AT_String) || (t =? AT_ResourceID))
-                    | _ => true
-                    end) es.
+(* the events of the tree grammar [doc]: all but arrays delivered in chunks (begin, chunk, data) *)
+Definition grammar_event (e : event) : bool :=
+  match e with
+  | EArrayBegin _ | EMediaBegin _ | ECustomBegin _ _ | EArrayChunk _ _ | EArrayData _ => false
+  | _ => true
+  end.
+(* ... without markers and references *)
+Definition plain_event (e : event) : bool :=
+  grammar_event e && match e with EMarker _ | ERefLocal _ => false | _ => true end.
+(* event lists inside the marker-free fragment of [doc] *)
+Definition in_fragment (es : list event) : bool := forallb plain_event es.
+(* event lists over the alphabet of [doc] *)
+Definition in_grammar (es : list event) : bool := forallb grammar_event es.
+(* markers and references only where a value may start: none where the validator expects a map key (the rule in
+   force after the events before it is the map-key rule) *)
+Definition is_marker_or_ref (e : event) : bool := match e with EMarker _ | ERefLocal _ => true | _ => false end.
+Definition value_markers_only (cfg : rcfg) (es : list event) : Prop :=
+  forall p e tl, es = p ++ e :: tl -> is_marker_or_ref e = true -> rule_in_force cfg p <> Some RMapKey.
+(* the same, decided along the run *)
+Fixpoint value_markers_from (cfg : rcfg) (c : rctx) (es : list event) : bool :=
+  match es with
+  | [] => true
+  | e :: r =>
+      negb (is_marker_or_ref e && match e_rule (cur c) with RMapKey => true | _ => false end) &&
+      match rstep cfg c e with Some (c1, _) => value_markers_from cfg c1 r | None => true end
+  end.
+Definition value_markers_onlyb (cfg : rcfg) (es : list event) : bool := value_markers_from cfg init_rctx es.
